@@ -122,6 +122,7 @@ class IdProp(PropBase):
                     for _ in range(3):
                         X, Y = gen_query(rng, g)
                         cases.append({"g": g, "X": X, "Y": Y})
+            cases.extend(GG.trace_corpus(rng, tier, conditions=False))   # one query per shape of run of the recursion (tools/mktracecorpus.py)
             if tier == "thorough":
                 for k in (2, 3):
                     for g in GG.all_admgs(k):
